@@ -42,6 +42,11 @@ impl SubGridHeader {
     // Parse a subgrid header for an NTv2 grid
     // Weird sign conventions like longitude being west positive are handled here.
     fn new(parser: &NTv2Parser, offset: usize) -> Result<Self, Error> {
+        // The sub grid header must be there in full
+        if offset + HEADER_SIZE > parser.buffer().len() {
+            return Err(Error::Invalid("Grid Too Short".to_string()));
+        }
+
         let nlat = parser.get_f64(offset + NLAT);
         let slat = parser.get_f64(offset + SLAT);
         let wlon = parser.get_f64(offset + WLON);
